@@ -59,3 +59,15 @@ Theorem c01_reachable_worlds_are_consistent_all_calls :
     FInv (fold_left (run_top_all beh) ops (world0 fuel p)).
 Proof. exact reachable_FInv. Qed.
 Print Assumptions c01_reachable_worlds_are_consistent_all_calls.
+
+Require Import EV.Fetch EV.NoUB.
+
+(* evaluating a handler's parameters (HandlerParam::get of every parameter: Fetcher / Single views with
+   their random-access probes, the targeted receiver's item) on a world with a consistent store and
+   exact caches never reaches an unchecked failure - no stale cache entry, freed archetype, wrong
+   column or missing row; the only failure left is the documented Single panic *)
+Theorem c01_parameter_evaluation_hits_no_unchecked_failure :
+  forall (w : world) (ps : list rparam) (loc : eloc),
+    StoreInv w -> params_ready w ps loc -> ~ is_ub (param_views w ps loc).
+Proof. exact param_views_ok. Qed.
+Print Assumptions c01_parameter_evaluation_hits_no_unchecked_failure.
